@@ -219,6 +219,11 @@ func genTable(t *rapid.T, minRows, maxRows int, wild bool) *Table {
 	}
 	nrows := rapid.IntRange(minRows, maxRows).Draw(t, "nrows")
 	nullPct := rapid.SampledFrom([]int{0, 0, 10, 30}).Draw(t, "nullPct")
+	if nullPct == 0 {
+		// m, h, k are never null in this table: let the chain generator know (group keys with nulls
+		// are a don't-care of stats/top/rare and are only generated over null-free columns)
+		tb.Cols[3].Kind, tb.Cols[5].Kind, tb.Cols[6].Kind = kNum, kStr, kStr
+	}
 	nRange := rapid.SampledFrom([]int{2, 4, 9}).Draw(t, "nRange")
 	keyN := rapid.IntRange(2, len(keyPool)).Draw(t, "keyN")
 	ts := baseTs + uint64(nrows)*1000
